@@ -134,7 +134,7 @@ impl Prop for C08 {
     }
 
     fn cases(tier: Tier) -> u64 {
-        tier.pick(80_000, 600_000)
+        tier.pick(80_000, 2_000_000)
     }
 
     fn strategy(tier: Tier) -> BoxedStrategy<Case> {
